@@ -797,6 +797,12 @@ def run(ctx):
         # Literals the tools cannot represent are classified from the INPUT and reported under one key per class.
         reals = X.real_grid(not quick, ctx.rng)
         ints = X.int_grid(ctx.rng)
+        # the hypothesis of `C07_real_respelled_lexes` (RealSp: digits `.` digits [e sign digits]) put to printf: the `%#.15g` text of
+        # every finite value of the grid has that shape, and the Lean scanner model reads its printed form as one REAL token
+        shape_bad = [l for l in reals if float(l) not in (float("inf"),) and not re.fullmatch(r"\d+\.\d*(e[+-]\d+)?", X.real_key(l))]
+        ctx.cov["real_spelling_shape"] = {"literals": len(reals), "not of the shape digits.digits[e+-digits]": len(shape_bad)}
+        if shape_bad:
+            ctx.broken.append(("real literal spelling", f"printf('%#.15g') of {shape_bad[:5]} is not of the shape the Lean theorem assumes (RealSp)"))
         groups = {}
         for kind, lits in (("REAL", reals), ("INTEGER", ints)):
             for l in lits:
